@@ -430,6 +430,23 @@ pub fn apply(bytes: &[u8], sp: &[Span], mu: &Mutation, chunk: usize) -> Option<V
             b.insert(end, 0x5a);
             wr(&mut b, s.off, s.width, (s.len + 1) as u64);
         },
+        // every byte maximal: a chunk of whole element width that is not below any modulus
+        "fill-ff" => {
+            if s.len == 0 || b[start..end].iter().all(|x| *x == 0xff) {
+                return None;
+            }
+            for x in &mut b[start..end] {
+                *x = 0xff;
+            }
+        },
+        m if m.starts_with("resize-ff:") => {
+            let n: usize = m[10..].parse().ok()?;
+            if n as u64 > maxv {
+                return None;
+            }
+            b.splice(start..end, std::iter::repeat(0xffu8).take(n));
+            wr(&mut b, s.off, s.width, n as u64);
+        },
         "append-zero" => {
             if (s.len as u64) >= maxv {
                 return None;
